@@ -11,6 +11,7 @@ package types
 //@   modular
 //@   modifies *
 //@   nopanic
+//@   invokes f on entry
 //@   ensures #c15-atomic: err != nil ==> unchanged()
 //@   ensures internal #c15-commit: err == nil ==> sameworld(ctx, cacheCtx)
 //@   cover #c15-failure-path: err != nil
